@@ -704,8 +704,12 @@ Section Eval.
     | a :: r => let! v := eval V O C a in let! vs := eval_args r in Ok (v :: vs)
     end.
 
+  Definition post (name : string) (r : value) : value :=
+    if is_aggr_name (ascii_lower name) then as_number r else r.
+
   Lemma eval_call : forall name args,
-    eval V O C (Call name args) = (let! vs := eval_args args in call V O C name vs).
+    eval V O C (Call name args) =
+    (let! vs := eval_args args in let! r := call V O C name vs in Ok (post name r)).
   Proof.
     intros name args. cbn [eval].
     match goal with |- bind ?x _ = bind ?y _ => assert (E : x = y); [|rewrite E; reflexivity] end.
@@ -715,16 +719,29 @@ Section Eval.
   Lemma eval_args_lits : forall vs, eval_args (map Lit vs) = Ok vs.
   Proof. induction vs as [|v r IH]; [reflexivity|]. cbn [map eval_args eval bind]. rewrite IH. reflexivity. Qed.
 
-  Lemma eval_call_lits : forall name vs, eval V O C (Call name (map Lit vs)) = call V O C name vs.
+  Lemma eval_call_lits : forall name vs,
+    eval V O C (Call name (map Lit vs)) = (let! r := call V O C name vs in Ok (post name r)).
   Proof. intros. rewrite eval_call, eval_args_lits. reflexivity. Qed.
+
+  (* for a name that is not one of the five aggregate names the result is passed on unchanged *)
+  Lemma eval_call_lits_plain : forall name vs,
+    is_aggr_name (ascii_lower name) = false ->
+    eval V O C (Call name (map Lit vs)) = call V O C name vs.
+  Proof.
+    intros name vs H. rewrite eval_call_lits. unfold post. rewrite H.
+    destruct (call V O C name vs); reflexivity.
+  Qed.
 
   (* f2(f1(literals...), literal) *)
   Lemma eval_nested : forall n2 n1 vs w,
+    is_aggr_name (ascii_lower n1) = false -> is_aggr_name (ascii_lower n2) = false ->
     eval V O C (Call n2 [Call n1 (map Lit vs); Lit w]) =
     (let! s1 := call V O C n1 vs in call V O C n2 [s1; w]).
   Proof.
-    intros. rewrite eval_call. cbn [eval_args]. rewrite eval_call_lits.
-    destruct (call V O C n1 vs); reflexivity.
+    intros n2 n1 vs w H1 H2. rewrite eval_call. cbn [eval_args]. rewrite (eval_call_lits_plain n1 vs H1).
+    unfold post. rewrite H2.
+    destruct (call V O C n1 vs) as [s1| | |]; cbn [bind eval]; try reflexivity.
+    destruct (call V O C n2 [s1; w]); reflexivity.
   Qed.
 End Eval.
 
@@ -734,7 +751,7 @@ Proof.
   rewrite eval_call. apply bind_np.
   - induction IH as [|a r Ha _ IHr]; cbn [eval_args]; [discriminate|].
     apply bind_np; [exact Ha | intros]. apply bind_np; [exact IHr | discriminate].
-  - intros. apply call_np.
+  - intros. apply bind_np; [apply call_np | discriminate].
 Qed.
 
 (* DECODE(ENCODE(v, b), b) = v as one expression, function names in any letter case *)
@@ -745,10 +762,10 @@ Lemma eval_decode_encode : forall V O C v b bl nd ne,
 Proof.
   intros V O C v b bl nd ne L Hv Hb Hin Hd He.
   destruct (decode_encode V O C v b bl L Hv Hb Hin) as [s [H1 H2]].
-  rewrite eval_call. cbn [eval_args].
-  change [Lit v; Lit (VStr b)] with (map Lit [v; VStr b]). rewrite eval_call_lits.
+  change [Lit v; Lit (VStr b)] with (map Lit [v; VStr b]).
+  rewrite eval_nested by (rewrite ?He, ?Hd; reflexivity).
   rewrite (call_name V O C ne BEncode) by (rewrite He; reflexivity).
-  rewrite H1. cbn [bind eval].
+  rewrite H1. cbn [bind].
   rewrite (call_name V O C nd BDecode) by (rewrite Hd; reflexivity).
   exact H2.
 Qed.
